@@ -13,6 +13,14 @@ Stages (each executed; the first one that disagrees with the source is blamed):
 Second path from S2 (the other documented way out of riscv_scf): C3 convert-riscv-scf-to-riscv-cf,
 C4 canonicalize (ElideConstantBranches folds the constant loop guards), C5 riscv-lower-parallel-mov +
 prologue/epilogue → assembler text.  C3/C4 run on the IR executor (basic blocks, riscv_cf terminators).
+Pass-order family (the statement lists the passes, not one order; every order below is accepted by the passes):
+  E  from S1: canonicalize before register allocation (E1; SSA form executed)
+  P  from S4: riscv-prologue-epilogue-insertion while riscv_scf loops are still structured (P5, IR executed incl. the
+     frame loads/stores; callee-saved registers compared), then lower-riscv-scf-to-labels → assembler (P6)
+  Q  from S2: prologue/epilogue first (Q3), then convert-riscv-scf-to-riscv-cf, canonicalize, parallel-mov → assembler (Q4)
+Float programs (f64/f32 arith with per-operation fast-math flags) take the same stages; F/D registers are 64-bit
+patterns, fused multiply-add rounds once, results are compared with the set of results the source's fast-math
+flags admit (strict evaluation, or contraction of a product into a sum/difference where BOTH carry `contract`).
 S1–S4 are run by a structured executor over the IR (riscv_scf.for executed exactly the way
 lower-riscv-scf-to-labels spells it: mv iv,lb; bge; body; add iv,step; blt), S5/S6 by the program-counter
 machine on the parsed assembler text.
@@ -33,15 +41,26 @@ STAGES = [
     ("S5-labels", ["lower-riscv-scf-to-labels"]),
     ("S6-asm", ["riscv-prologue-epilogue-insertion"]),
 ]
-ASM_STAGES = ("S5-labels", "S6-asm", "C5-cfasm")
+ASM_STAGES = ("S5-labels", "S6-asm", "C5-cfasm", "P6-asm", "Q4-cfasm")
 FINAL = "S6-asm"
+PROLOGUE = "riscv-prologue-epilogue-insertion"
 # second way out of the structured loops (taken from the allocated module S2): basic blocks + riscv_cf
 CF_STAGES = [
     ("C3-cf", ["convert-riscv-scf-to-riscv-cf"]),
     ("C4-cfcanon", ["canonicalize"]),
     ("C5-cfasm", ["riscv-lower-parallel-mov", "riscv-prologue-epilogue-insertion"]),
 ]
-FINALS = ("S6-asm", "C5-cfasm")
+FINALS = ("S6-asm", "C5-cfasm", "P6-asm", "Q4-cfasm")
+# stages executed on the IR after prologue/epilogue insertion: callee-saved registers are compared there too
+FRAME_IR = ("P5-frame", "Q3-frame")
+# side paths: name → (stage whose output they start from, stages)
+SIDE_PATHS = {
+    "C": ("S2-allocated", CF_STAGES),
+    "E": ("S1-lowered", [("E1-earlycanon", ["canonicalize"])]),
+    "P": ("S4-canon", [("P5-frame", [PROLOGUE]), ("P6-asm", ["lower-riscv-scf-to-labels"])]),
+    "Q": ("S2-allocated", [("Q3-frame", [PROLOGUE]),
+                           ("Q4-cfasm", ["convert-riscv-scf-to-riscv-cf", "canonicalize", "riscv-lower-parallel-mov"])]),
+}
 STAGE_SITE = {
     "S1-lowered": "xdsl.backend.riscv.lowering",
     "S2-allocated": "xdsl.transforms.riscv_allocate_registers.RISCVAllocateRegistersPass",
@@ -52,6 +71,11 @@ STAGE_SITE = {
     "C3-cf": "xdsl.backend.riscv.lowering.convert_riscv_scf_to_riscv_cf.ConvertRiscvScfToRiscvCfPass",
     "C4-cfcanon": "xdsl.transforms.canonicalize.CanonicalizePass[riscv_cf]",
     "C5-cfasm": "xdsl.backend.riscv.prologue_epilogue_insertion.PrologueEpilogueInsertion[riscv_cf]",
+    "E1-earlycanon": "xdsl.transforms.canonicalize.CanonicalizePass[riscv]",
+    "P5-frame": "xdsl.backend.riscv.prologue_epilogue_insertion.PrologueEpilogueInsertion[riscv_scf]",
+    "P6-asm": "xdsl.backend.riscv.riscv_scf_to_asm.LowerRiscvScfForToLabelsPass",
+    "Q3-frame": "xdsl.backend.riscv.prologue_epilogue_insertion.PrologueEpilogueInsertion[riscv_scf]",
+    "Q4-cfasm": "xdsl.backend.riscv.lowering.convert_riscv_scf_to_riscv_cf.ConvertRiscvScfToRiscvCfPass",
 }
 
 INT_OPS = ["addi", "subi", "muli", "andi", "ori", "xori", "shli", "shrsi", "shrui", "divsi", "remsi", "divui", "remui"]
@@ -199,6 +223,123 @@ def nested_program(rng: Any, fixed: tuple[Any, ...] | None = None) -> dict[str, 
             "arg_types": ["i32"] * nargs, "ret_types": rets}
 
 
+# ------------------------------------------------------------------------------------------------
+# float programs: straight-line f64 / f32 arith with per-operation fast-math flags
+# ------------------------------------------------------------------------------------------------
+
+F_ARITH = {"addf": "fadd", "subf": "fsub", "mulf": "fmul", "divf": "fdiv", "negf": "fsgnjn"}
+F_FLAGS = ["", "contract", "reassoc", "fast", "nnan", "ninf", "nsz", "arcp", "afn", "reassoc,nnan", "nnan,contract"]
+
+
+def float_program_of(ty: str, nargs: int, ops: list[tuple[str, str, str, str, str]], rets: list[str]) -> dict[str, Any]:
+    """ops: (arith op, result, lhs, rhs, fast-math flags) over %a0.. and earlier results.  `fspec` is the same
+    program as instruction list for the oracle's evaluator (one rounding per operation unless both operations of
+    a product-sum pair carry `contract`)"""
+    sig = ", ".join(f"%a{i}: {ty}" for i in range(nargs))
+    lines = []
+    for op, res, a, b, fl in ops:
+        fm = f" fastmath<{fl}>" if fl else ""
+        if op == "negf":   # unary (b = a); for the oracle: sign injection of the negated own sign
+            lines.append(f"  %{res} = arith.negf %{a} : {ty}")
+            continue
+        lines.append(f"  %{res} = arith.{op} %{a}, %{b}{fm} : {ty}")
+    rtys = [ty] * len(rets)
+    text = (f"builtin.module {{\nfunc.func @main({sig}) -> ({', '.join(rtys)}) {{\n" + "\n".join(lines)
+            + f"\n  func.return {', '.join('%' + r for r in rets)} : {', '.join(rtys)}\n}}\n}}\n")
+    prec = ".d" if ty == "f64" else ".s"
+    return {"text": text, "arg_types": [ty] * nargs, "ret_types": rtys,
+            "fspec": {"ops": [[F_ARITH[op] + prec, res, None, a, b, fl] for op, res, a, b, fl in ops], "rets": rets,
+                      "args": [f"a{i}" for i in range(nargs)], "double": ty == "f64"}}
+
+
+def float_program(rng: Any) -> dict[str, Any]:
+    ty = "f64" if rng.random() < 0.8 else "f32"
+    nargs = rng.randint(2, 4)
+    pool = [f"a{i}" for i in range(nargs)]
+    ops: list[tuple[str, str, str, str, str]] = []
+    k = 0
+
+    def fresh() -> str:
+        nonlocal k
+        k += 1
+        return f"v{k}"
+    for _ in range(rng.randint(1, 3)):
+        if rng.random() < 0.6:   # a product feeding a sum / difference, flags equal with probability 1/2
+            f1 = rng.choice(F_FLAGS)
+            f2 = f1 if rng.random() < 0.5 else rng.choice(F_FLAGS)
+            m = fresh()
+            ops.append(("mulf", m, rng.choice(pool), rng.choice(pool), f1))
+            if rng.random() < 0.3:   # other work in between
+                w = fresh()
+                ops.append((rng.choice(["addf", "subf", "mulf"]), w, rng.choice(pool), rng.choice(pool), rng.choice(F_FLAGS)))
+                pool.append(w)
+            r = fresh()
+            other = rng.choice(pool)
+            ops.append((rng.choice(["addf", "addf", "addf", "subf"]), r, *((m, other) if rng.random() < 0.5 else (other, m)), f2))
+            if rng.random() < 0.2:
+                pool.append(m)
+            pool.append(r)
+        else:
+            r = fresh()
+            op = rng.choice(["addf", "subf", "mulf", "divf"] + (["negf"] if ty == "f32" else []))  # f64 negf: refused by the lowering
+            a = rng.choice(pool)
+            ops.append((op, r, a, a if op == "negf" else rng.choice(pool), "" if op == "negf" else rng.choice(F_FLAGS)))
+            pool.append(r)
+    rets = [pool[-1]] + ([rng.choice(pool[nargs:])] if rng.random() < 0.3 else [])
+    return float_program_of(ty, nargs, ops, rets)
+
+
+def float_directed() -> list[dict[str, Any]]:
+    out = []
+    for fl in F_FLAGS:
+        out.append(float_program_of("f64", 3, [("mulf", "m", "a0", "a1", fl), ("addf", "r", "m", "a2", fl)], ["r"]))
+    for f1, f2 in (("contract", ""), ("", "contract"), ("reassoc", "contract"), ("fast", "reassoc"), ("contract", "fast")):
+        out.append(float_program_of("f64", 3, [("mulf", "m", "a0", "a1", f1), ("addf", "r", "a2", "m", f2)], ["r"]))
+    # the multiplicands are dead before the sum (their registers are reused once allocated)
+    out.append(float_program_of("f64", 3, [("mulf", "m", "a0", "a1", "contract"), ("addf", "x", "a2", "a2", ""),
+                                           ("addf", "r", "m", "x", "contract")], ["r"]))
+    out.append(float_program_of("f32", 3, [("mulf", "m", "a0", "a1", "contract"), ("addf", "r", "m", "a2", "contract")], ["r"]))
+    for op in F_ARITH:
+        b = "a0" if op == "negf" else "a1"
+        out.append(float_program_of("f64", 2, [(op, "r", "a0", b, "")], ["r"]))
+        out.append(float_program_of("f32", 2, [(op, "r", "a0", b, "")], ["r"]))
+    return out
+
+
+def float_inputs(rng: Any, p: dict[str, Any], n: int) -> list[list[int]]:
+    from props import c22_snip as sn
+
+    out = []
+    for _ in range(n):
+        if p["fspec"]["double"]:
+            out.append(sn.related_f64(rng, [sn.rand_f64(rng) for _ in p["arg_types"]]))
+        else:
+            out.append([sn.rand_f32(rng) & rv.M32 for _ in p["arg_types"]])
+    return out
+
+
+def float_admissible(p: dict[str, Any], vec: list[int]) -> list[list[Any]]:
+    """results the source admits on this input: strict evaluation first, then every contraction its flags licence"""
+    from props import c22_snip as sn
+
+    fs = p["fspec"]
+    d = fs["double"]
+    idx: dict[str, str] = {}
+
+    def ren(n: str) -> str:   # every source value in its own virtual F/D register
+        return idx.setdefault(n, f"v{len(idx)}")
+    prog = [(op[0], [ren(op[1]), ren(op[3]), ren(op[4])]) for op in fs["ops"]]
+    names = frozenset(ren(a) for a in fs["args"]) | frozenset(ren(op[1]) for op in fs["ops"])
+    regs = {ren(a): (v if d else rv.box32(v)) for a, v in zip(fs["args"], vec)}
+    outs = []
+    for c in [None] + sn.contraction_choices(sn.licensed_contractions({"ops": fs["ops"]})):
+        o = sn.run_prog(prog, regs, [ren(r) for r in fs["rets"]], 0, names, fuse=c)
+        r = canon_rets(o[1], p["ret_types"])
+        if r not in outs:
+            outs.append(r)
+    return outs
+
+
 NESTED_FIXED = [
     ((0, 2, 1), (0, 3, 1), "addi", "addi", False, False),
     ((0, 3, 1), (0, 2, 1), "addi", "xori", False, True),
@@ -229,18 +370,85 @@ def get_pass(name: str) -> Any:
     return _PASSES[name]()
 
 
-def apply_passes(m: Any, names: list[str]) -> tuple[str, str, str] | None:
-    """None on success, else (pass, exception class, message)"""
+def apply_passes(m: Any, names: list[str], frame_obs: Any = None) -> tuple[str, str, str] | None:
+    """None on success, else (pass, exception class, message).  `frame_obs`: called with
+    [(function, tree before, what the pass inserted)] around riscv-prologue-epilogue-insertion"""
     from xdsl.context import Context
 
     ctx = Context()
     for n in names:
+        before = frame_before(m) if (frame_obs is not None and n == PROLOGUE) else None
         try:
             get_pass(n)().apply(ctx, m)
             m.verify()
         except Exception as e:  # noqa: BLE001
             return (n, type(e).__name__, str(e).split("\n")[0][:160])
+        if before is not None:
+            frame_obs(frame_after(m, before))
     return None
+
+
+# ------------------------------------------------------------------------------------------------
+# what PrologueEpilogueInsertion sees and does (for the Lean model `riscv_frame`: usedCalleeSaved / layout)
+# ------------------------------------------------------------------------------------------------
+
+def xreg(t: Any) -> int:
+    """register code of the Lean frame model: integer x_n → n, float f_n → 100 + n, unallocated → 999"""
+    from xdsl.dialects import riscv
+
+    name = t.register_name.data if hasattr(t, "register_name") else ""
+    if isinstance(t, riscv.IntRegisterType) and name in rv.REGNUM:
+        return rv.REGNUM[name]
+    if isinstance(t, riscv.FloatRegisterType) and name in rv.FREGNUM:
+        return 100 + rv.FREGNUM[name]
+    return 999
+
+
+def walk_tree(func: Any) -> str:
+    """the function body as the tree `func.walk()` visits: `(o r…)` an op with result registers r…,
+    `(g)` a get_register op, `(o r… child…)` an op with regions (children = the block arguments of its regions as
+    one leading `(o a…)`, then the ops of all blocks in order)"""
+    from xdsl.dialects.riscv.abstract_ops import GetAnyRegisterOperation
+
+    def node(op: Any) -> str:
+        if isinstance(op, GetAnyRegisterOperation):
+            return "( g )"
+        regs = [str(xreg(r.type)) for r in op.results if hasattr(r.type, "register_name")]
+        # block arguments of the op's regions (loop induction variable, loop-carried values): written by the code
+        # the op lowers to; they come right after the op's own results, as one leading child without regions
+        bargs = [str(xreg(a.type)) for reg in op.regions for blk in reg.blocks for a in blk.args if hasattr(a.type, "register_name")]
+        kids = (["( o " + " ".join(bargs) + " )"] if bargs else []) + [node(o) for reg in op.regions for blk in reg.blocks for o in blk.ops]
+        return "( o " + " ".join(regs + kids) + " )"
+    return " ".join(node(o) for blk in func.body.blocks for o in blk.ops)
+
+
+def frame_before(m: Any) -> dict[str, tuple[str, set[int]]]:
+    from xdsl.dialects import riscv_func
+
+    return {f.sym_name.data: (walk_tree(f), {id(o) for o in f.walk()})
+            for f in m.walk() if isinstance(f, riscv_func.FuncOp) and f.body.blocks}
+
+
+def frame_after(m: Any, before: dict[str, tuple[str, set[int]]]) -> list[tuple[str, str, str]]:
+    """[(function, tree before the pass, `saved r… | size N | offs o…` read off the inserted prologue)]"""
+    from xdsl.dialects import riscv, riscv_func
+
+    out = []
+    for f in m.walk():
+        if not isinstance(f, riscv_func.FuncOp) or f.sym_name.data not in before:
+            continue
+        tree, ids = before[f.sym_name.data]
+        saved, offs, size = [], [], 0
+        for o in f.body.blocks.first.ops:
+            if id(o) in ids:
+                break
+            if isinstance(o, riscv.AddiOp):
+                size = -o.immediate.value.data
+            elif isinstance(o, (riscv.SwOp, riscv.FSdOp)):
+                saved.append(str(xreg(o.rs2.type)))
+                offs.append(str(o.immediate.value.data))
+        out.append((f.sym_name.data, tree, f"saved {' '.join(saved)} | size {size} | offs {' '.join(offs)}"))
+    return out
 
 
 def asm_text(m: Any) -> str:
@@ -250,27 +458,38 @@ def asm_text(m: Any) -> str:
 
 
 def pin_s_registers(m: Any, rng: Any, p: float) -> int:
-    """give some not loop-carried, unallocated integer results a callee-saved register each (distinct
-    registers, so no interference is introduced); returns the number of pinned values"""
+    """give some not loop-carried, unallocated integer / float results and some loop induction variables a
+    callee-saved register each (distinct registers, so no interference is introduced); returns the number of pinned values"""
     from xdsl.dialects import riscv, riscv_scf
     from xdsl.rewriter import Rewriter
 
     free = [f"s{i}" for i in range(12)]
     rng.shuffle(free)
+    ffree = [f"fs{i}" for i in range(12)]
+    rng.shuffle(ffree)
     n = 0
     for op in list(m.walk()):
-        if not free:
-            break
+        # the induction variable of a loop: a block argument (no op result), written by the lowered loop code
+        if isinstance(op, riscv_scf.ForOp) and free and rng.random() < p / 2:
+            iv = op.body.block.args[0]
+            if isinstance(iv.type, riscv.IntRegisterType) and not iv.type.is_allocated:
+                Rewriter.replace_value_with_new_type(iv, riscv.IntRegisterType.from_name(free.pop()))
+                n += 1
+            continue
         if not isinstance(op, riscv.RISCVInstruction) or len(op.results) != 1:
             continue
         r = op.results[0]
-        if not isinstance(r.type, riscv.IntRegisterType) or r.type.is_allocated:
+        isf = isinstance(r.type, riscv.FloatRegisterType)
+        if not isinstance(r.type, (riscv.IntRegisterType, riscv.FloatRegisterType)) or r.type.is_allocated:
+            continue
+        if not (ffree if isf else free):
             continue
         if any(isinstance(u.operation, (riscv_scf.ForOp, riscv_scf.YieldOp, riscv.ParallelMovOp)) for u in r.uses):
             continue
-        if isinstance(op, riscv.MVOp) or rng.random() >= p:
+        if isinstance(op, (riscv.MVOp, riscv.FMvDOp, riscv.FMVOp)) or rng.random() >= p:
             continue
-        Rewriter.replace_value_with_new_type(r, riscv.IntRegisterType.from_name(free.pop()))
+        Rewriter.replace_value_with_new_type(
+            r, riscv.FloatRegisterType.from_name(ffree.pop()) if isf else riscv.IntRegisterType.from_name(free.pop()))
         n += 1
     return n
 
@@ -293,6 +512,8 @@ def ins_of(op: Any, nm: Namer) -> tuple[str, list[Any]]:
         return ("lw", [nm.reg(op.rd), nm.reg(op.rs1), op.immediate.value.data])
     if isinstance(op, riscv.SwOp):
         return ("sw", [nm.reg(op.rs2), nm.reg(op.rs1), op.immediate.value.data])
+    if isinstance(op, (riscv.FSdOp, riscv.FSwOp)):
+        return (op.assembly_instruction_name(), [nm.reg(op.rs2), nm.reg(op.rs1), op.immediate.value.data])
     args: list[Any] = []
     for a in op.assembly_line_args():
         if a is None:
@@ -320,6 +541,22 @@ class IRExec:
     def ins_of(self, op: Any) -> tuple[str, list[Any]]:
         return ins_of(op, self.nm)
 
+    def gv(self, v: Any) -> int:
+        """value of an SSA value's register (F/D registers: 64-bit pattern)"""
+        from xdsl.dialects import riscv
+
+        r = self.nm.reg(v)
+        return self.m.getf(r) if isinstance(v.type, riscv.FloatRegisterType) else self.m.get(r)
+
+    def sv(self, v: Any, x: int) -> None:
+        from xdsl.dialects import riscv
+
+        r = self.nm.reg(v)
+        if isinstance(v.type, riscv.FloatRegisterType):
+            self.m.setf(r, x)
+        else:
+            self.m.set(r, x)
+
     def call(self, name: str, depth: int = 0) -> None:
         """run a function: blocks are left through riscv_cf terminators (block arguments are assigned
         simultaneously: a no-op once source and target share a register) or riscv_func.return"""
@@ -333,7 +570,7 @@ class IRExec:
                 if len(vals) != len(target.args):
                     raise IRUnsupported("branch arity")
                 for a, v in zip(target.args, vals):
-                    self.m.set(self.nm.reg(a), v)
+                    self.sv(a, v)
                 self.trace.append(id(target))
                 blk = target
                 self.tick()
@@ -354,26 +591,27 @@ class IRExec:
         from xdsl.ir import Dialect
 
         g, s, reg = self.m.get, self.m.set, self.nm.reg
+        gv, sv = self.gv, self.sv
         for op in blk.ops:
             self.tick()
             if isinstance(op, riscv_func.ReturnOp):
                 if depth == 0:
-                    self.ret_vals = [g(reg(v)) for v in op.operands]
+                    self.ret_vals = [gv(v) for v in op.operands]
                 return None
             if isinstance(op, riscv_cf.ConditionalBranchOperation):
                 taken = rv.branch_taken(Dialect.split_name(op.name)[1], g(reg(op.rs1)), g(reg(op.rs2)))
                 target, args = (op.then_block, op.then_arguments) if taken else (op.else_block, op.else_arguments)
-                return ("goto", target, [g(reg(x)) for x in args])
+                return ("goto", target, [gv(x) for x in args])
             if isinstance(op, (riscv_cf.BranchOp, riscv_cf.JOp)):
-                return ("goto", op.successor, [g(reg(x)) for x in op.block_arguments])
+                return ("goto", op.successor, [gv(x) for x in op.block_arguments])
             if isinstance(op, riscv_scf.YieldOp):
                 return op
             if isinstance(op, GetAnyRegisterOperation) or isinstance(op, (riscv.LabelOp, riscv.CommentOp)):
                 continue
             if isinstance(op, riscv.ParallelMovOp):
-                vals = [g(reg(x)) for x in op.inputs]
+                vals = [gv(x) for x in op.inputs]
                 for d, v in zip(op.outputs, vals):
-                    s(reg(d), v)
+                    sv(d, v)
                 continue
             if isinstance(op, riscv_func.CallOp):
                 self.call(op.callee.string_value(), depth + 1)
@@ -382,25 +620,25 @@ class IRExec:
                 body = op.body.block
                 iv = reg(body.args[0])
                 s(iv, g(reg(op.lb)))
-                vals = [g(reg(x)) for x in op.iter_args]
+                vals = [gv(x) for x in op.iter_args]
                 for a, v in zip(body.args[1:], vals):
-                    s(reg(a), v)
+                    sv(a, v)
                 if rv.s32(g(iv)) < rv.s32(g(reg(op.ub))):
                     while True:
                         y = self.block(body, depth)
                         if y is None:
                             raise IRUnsupported("loop body without yield")
-                        vals = [g(reg(x)) for x in y.operands]
+                        vals = [gv(x) for x in y.operands]
                         for a, v in zip(body.args[1:], vals):
-                            s(reg(a), v)
+                            sv(a, v)
                         step = op.step.value.data if isinstance(op.step, IntegerAttr) else g(reg(op.step))
                         s(iv, g(iv) + step)
                         self.tick()
                         if not rv.s32(g(iv)) < rv.s32(g(reg(op.ub))):
                             break
-                vals = [g(reg(a)) for a in body.args[1:]]
+                vals = [gv(a) for a in body.args[1:]]
                 for r, v in zip(op.results, vals):
-                    s(reg(r), v)
+                    sv(r, v)
                 continue
             if isinstance(op, riscv.RISCVInstruction):
                 self.m.exec1(self.ins_of(op), 0)
@@ -409,34 +647,58 @@ class IRExec:
         return None
 
 
-def run_ir(module: Any, regs: dict[str, int], nret: int) -> tuple[Any, ...]:
+ALL_CALLEE_SAVED = rv.CALLEE_SAVED + rv.FCALLEE_SAVED
+
+
+def abi_regs(types: list[str]) -> list[str]:
+    """argument / result registers: integers in a0.., floats in fa0.. (numbered separately)"""
+    out, ni, nf = [], 0, 0
+    for t in types:
+        if t in ("f32", "f64"):
+            out.append(f"fa{nf}")
+            nf += 1
+        else:
+            out.append(f"a{ni}")
+            ni += 1
+    return out
+
+
+def _rets(nret: int | list[str]) -> list[str]:
+    return [f"a{i}" for i in range(nret)] if isinstance(nret, int) else list(nret)
+
+
+def run_ir(module: Any, regs: dict[str, int], nret: int | list[str]) -> tuple[Any, ...]:
     mach = rv.Machine([], regs)
     ex = IRExec(module, mach)
     try:
         ex.call("main")
     except rv.Trap as e:
         return ("trap", str(e))
-    return ("ok", [mach.get(f"a{i}") for i in range(nret)], {r: mach.get(r) for r in rv.CALLEE_SAVED}, ex.nm.n)
+    return ("ok", [mach.get(r) for r in _rets(nret)], {r: mach.get(r) for r in ALL_CALLEE_SAVED}, ex.nm.n)
 
 
-def run_asm(prog: list[tuple[str, list[Any]]], regs: dict[str, int], nret: int) -> tuple[Any, ...]:
+def run_asm(prog: list[tuple[str, list[Any]]], regs: dict[str, int], nret: int | list[str]) -> tuple[Any, ...]:
     mach = rv.Machine(prog, regs)
     try:
         mach.call("main")
     except rv.Trap as e:
         return ("trap", str(e))
-    return ("ok", [mach.get(f"a{i}") for i in range(nret)], {r: mach.get(r) for r in rv.CALLEE_SAVED})
+    return ("ok", [mach.get(r) for r in _rets(nret)], {r: mach.get(r) for r in ALL_CALLEE_SAVED})
 
 
-def entry_regs(rng: Any, vec: list[int]) -> dict[str, int]:
-    regs = {f"a{k}": v & rv.M32 for k, v in enumerate(vec)}
-    regs["sp"] = rv.SP0
+def entry_regs(rng: Any, vec: list[int], arg_types: list[str] | None = None) -> dict[str, int]:
+    """entry state: arguments (f32 NaN-boxed, f64 as bit pattern), every other register random"""
+    regs: dict[str, int] = {"sp": rv.SP0}
     for k in range(12):
         regs[f"s{k}"] = rng.getrandbits(32)
     for k in range(7):
         regs[f"t{k}"] = rng.getrandbits(32)
-    for k in range(len(vec), 8):
+    for k in range(8):
         regs[f"a{k}"] = rng.getrandbits(32)
+    for n in rv.FABI:
+        regs[n] = rng.getrandbits(64)
+    for r, t, v in zip(abi_regs(arg_types or ["i32"] * len(vec)), arg_types or ["i32"] * len(vec), vec):
+        regs[r] = rv.box32(v) if t == "f32" else (v & rv.M64) if t == "f64" else (v & rv.M32)
     return regs
 
 
@@ -445,11 +707,31 @@ def want_from_sem(line: str, ret_types: list[str]) -> list[int] | None:
     if not line.startswith("ok ["):
         return None
     body = line[4:].split("]")[0]
-    out = []
+    out: list[Any] = []
     for item, t in zip(body.split(","), ret_types):
-        v = int(item.split(":")[1])
+        txt = item.split(":")[1]
+        if t in ("f32", "f64"):
+            out.append("nan" if txt == "nan" else int(txt, 16))
+            continue
+        v = int(txt)
         out.append((v & 1) if t == "i1" else (v & rv.M32))
     return out
+
+
+def canon_rets(vals: list[int], ret_types: list[str]) -> list[Any]:
+    """returned registers as comparable results: i1 = bit 0, f32 = low word, every NaN is the same result"""
+    out: list[Any] = []
+    for x, t in zip(vals, ret_types):
+        if t == "i1":
+            out.append(x & 1)
+        elif t == "f64":
+            out.append("nan" if rv.is_nan_bits(x, True) else x)
+        elif t == "f32":
+            out.append("nan" if rv.is_nan_bits(rv.unbox32(x), False) else rv.unbox32(x))
+        else:
+            out.append(x)
+    return out
+
 
 
 # ------------------------------------------------------------------------------------------------
